@@ -13,10 +13,10 @@ import (
 type Op uint8
 
 const (
-	OpConst Op = iota // BV constant
-	OpVar             // BV variable
-	OpBConst          // Bool constant
-	OpBVar            // Bool variable
+	OpConst  Op = iota // BV constant
+	OpVar              // BV variable
+	OpBConst           // Bool constant
+	OpBVar             // Bool variable
 	OpAdd
 	OpSub
 	OpMul
@@ -1075,7 +1075,10 @@ func (m *Model) eval(t *Term, memo map[*Term]uint64) uint64 {
 	case OpUF:
 		var sb strings.Builder
 		for i := range t.Args {
-			fmt.Fprintf(&sb, "%x,", a(i))
+			if i > 0 {
+				sb.WriteByte(',')
+			}
+			fmt.Fprintf(&sb, "%d", a(i))
 		}
 		r = m.UFs[t.Name][sb.String()]
 	default:
